@@ -14,35 +14,107 @@ import (
 	"verifmc/core"
 )
 
+// hop is one letter of a history: a request (with the meaning the statement gives it) or a clock tick.
 type hop struct {
 	Name   string
 	Method string
 	Path   string
 	Hdr    []string
 	Tick   int
+	// what the request is, in the words of the statement
+	NoCache bool // a no-cache request: never answered from the cache
+	NoStore bool // a no-store request: bypasses the cache entirely
+	Inval   bool // the CacheInvalidator fires
+	// Unspec: the request spells no-cache in a way the statement and the middleware's documentation are silent
+	// about (directive in upper case, directive on a second Cache-Control line). The model treats it as a plain
+	// request (both readings store the origin's answer alike); a hit is judged as a plain hit and counted unspecified.
+	Unspec bool
+	// Class qualifies violation signatures of letters that are not the canonical spelling (empty for the base letters).
+	Class string
+	Sweep bool // part of the final probe sweep
+}
+
+func get(name, path string) hop { return hop{Name: name, Method: "GET", Path: path} }
+func nocache(name, path, cc, class string) hop {
+	return hop{Name: name, Method: "GET", Path: path, Hdr: []string{"Cache-Control", cc}, NoCache: true, Class: class}
+}
+func nostore(name, path, cc, class string) hop {
+	return hop{Name: name, Method: "GET", Path: path, Hdr: []string{"Cache-Control", cc}, NoStore: true, Class: class}
+}
+func inval(name, method, path string) hop {
+	return hop{Name: name, Method: method, Path: path, Hdr: []string{"X-Invalidate", "1"}, Inval: true}
 }
 
 var hops = []hop{
-	{Name: "get-a", Method: "GET", Path: "/a"},
-	{Name: "get-b", Method: "GET", Path: "/b"},
-	{Name: "get-c", Method: "GET", Path: "/c"},
-	{Name: "nocache-a", Method: "GET", Path: "/a", Hdr: []string{"Cache-Control", "no-cache"}},
-	{Name: "nostore-a", Method: "GET", Path: "/a", Hdr: []string{"Cache-Control", "no-store"}},
+	get("get-a", "/a"),
+	get("get-b", "/b"),
+	get("get-c", "/c"),
+	nocache("nocache-a", "/a", "no-cache", ""),
+	nostore("nostore-a", "/a", "no-store", ""),
 	{Name: "post-a", Method: "POST", Path: "/a"},
-	{Name: "get-e500", Method: "GET", Path: "/e"},
-	{Name: "inval-a", Method: "GET", Path: "/a", Hdr: []string{"X-Invalidate", "1"}},
+	get("get-e500", "/e"),
+	inval("inval-a", "GET", "/a"),
 	{Name: "tick1", Tick: 1},
 	{Name: "tickE", Tick: E},
 	{Name: "tickE+1", Tick: E + 1},
 }
 
-func opNames() []string {
-	var s []string
-	for _, o := range hops {
-		s = append(s, o.Name)
+// letters of the added families
+var (
+	tickE1 = hop{Name: "tickE+1", Tick: E + 1}
+	tickE  = hop{Name: "tickE", Tick: E}
+	tick1  = hop{Name: "tick1", Tick: 1}
+
+	// family "directives": a no-cache / no-store request is a request whose Cache-Control LIST contains the directive
+	dirLetters = []hop{
+		get("get-a", "/a"),
+		inval("inval-a", "GET", "/a"),
+		tickE1,
+		nocache("nocache-a:after-other", "/a", "max-age=0, no-cache", "directive-after-another"),
+		nocache("nocache-a:before-other", "/a", "no-cache, max-age=0", "directive-before-another"),
+		nocache("nocache-a:after-other-nospace", "/a", "max-stale=5,no-cache", "directive-after-another"),
+		nostore("nostore-a:after-other", "/a", "max-age=0, no-store", "directive-after-another"),
+		nostore("nostore-a:before-other", "/a", "no-store, max-age=0", "directive-before-another"),
+		nostore("nostore-a:with-nocache", "/a", "no-cache, no-store", "directive-after-another"),
+		{Name: "plain-a:other-directive", Method: "GET", Path: "/a", Hdr: []string{"Cache-Control", "max-age=60"}},
+		{Name: "nocache-a:upper-case", Method: "GET", Path: "/a", Hdr: []string{"Cache-Control", "No-Cache"}, Unspec: true},
+		{Name: "nocache-a:second-line", Method: "GET", Path: "/a", Hdr: []string{"Cache-Control", "max-age=0", "Cache-Control", "no-cache"}, Unspec: true},
 	}
-	return s
-}
+
+	// family "methods": the same path under several methods x Config.Methods
+	methLetters = []hop{
+		get("get-a", "/a"),
+		{Name: "head-a", Method: "HEAD", Path: "/a"},
+		{Name: "post-a", Method: "POST", Path: "/a"},
+		get("get-b", "/b"),
+		{Name: "head-b", Method: "HEAD", Path: "/b"},
+		inval("inval-a", "GET", "/a"),
+		inval("inval-head-a", "HEAD", "/a"),
+		tickE1,
+	}
+
+	// family "shapes": origin answers of size 0 / = MaxBytes / > MaxBytes next to ordinary ones, and keys whose later answers
+	// are not storable (status 500, body > MaxBytes) while an entry exists — refreshed by invalidation or no-cache
+	shapeLetters = []hop{
+		get("get-a", "/a"),
+		get("get-z", "/z"),
+		nocache("nocache-z", "/z", "no-cache", ""),
+		get("get-m", "/m"),
+		get("get-o", "/o"),
+		get("get-s", "/s"),
+		inval("inval-s", "GET", "/s"),
+		nocache("nocache-s", "/s", "no-cache", ""),
+		get("get-g", "/g"),
+		inval("inval-g", "GET", "/g"),
+		tickE1,
+	}
+
+	// family "heap": five keys (2,3,4,2,2 bytes) with different lifetimes under MaxBytes 8
+	heapKeys    = []hop{get("get-a", "/a"), get("get-b", "/b"), get("get-c", "/c"), get("get-d", "/d"), get("get-f", "/f")}
+	heapLetters = append(append([]hop{}, heapKeys...), inval("inval-a", "GET", "/a"), inval("inval-b", "GET", "/b"), inval("inval-d", "GET", "/d"), tickE, tick1)
+)
+
+func opNames() []string { return namesOf(hops) }
 
 func allCfgs() []ccfg {
 	var out []ccfg
@@ -50,12 +122,94 @@ func allCfgs() []ccfg {
 		for _, mb := range []uint{0, 6} {
 			for _, hd := range []bool{false, true} {
 				for _, g := range []bool{false, true} {
-					out = append(out, ccfg{st, mb, hd, g})
+					out = append(out, ccfg{Storage: st, MaxBytes: mb, Headers: hd, Gen: g})
 				}
 			}
 		}
 	}
 	return out
+}
+
+// family is one exhaustively enumerated set of histories: every configuration x every prefix x every word of
+// exactly Depth letters over Alphabet, followed by the probe sweep.
+type family struct {
+	Name     string
+	Cfgs     []ccfg
+	Prefixes [][]hop // nil = the empty prefix only
+	Alphabet []hop
+	Depth    int
+	Sweep    []hop // plain requests appended to every history (flagged Sweep)
+	MinReqs  int   // histories with fewer requests in the word are skipped (prefixes of others)
+}
+
+func sweepOf(hs []hop) []hop {
+	var out []hop
+	for _, h := range hs {
+		h.Name = "sweep-" + h.Name
+		h.Sweep = true
+		out = append(out, h)
+	}
+	return out
+}
+
+func families(quick bool) []family {
+	depth := 5
+	if !quick {
+		depth = 6
+	}
+	extra := 0
+	if !quick {
+		extra = 1
+	}
+	// the small families come first so that a wall-clock cap (thorough tier) can only cut the base family short
+	var fs []family
+
+	// directives: all 24 standard configurations
+	fs = append(fs, family{Name: "directives", Cfgs: allCfgs(), Alphabet: dirLetters, Depth: 3 + extra, MinReqs: 2})
+
+	// methods
+	var mc []ccfg
+	for _, st := range []string{"memory", "injected", "injected-lazy"} {
+		for _, mb := range []uint{0, 6} {
+			for _, hd := range []bool{false, true} {
+				for _, ms := range []string{"", "GET,POST", "POST,HEAD"} {
+					mc = append(mc, ccfg{Storage: st, MaxBytes: mb, Headers: hd, Methods: ms})
+				}
+			}
+		}
+	}
+	fs = append(fs, family{Name: "methods", Cfgs: mc, Alphabet: methLetters, Depth: 4 + extra, MinReqs: 2})
+
+	// shapes (adds the storage with the semantics of fiber's own in-memory storages)
+	var sc []ccfg
+	for _, st := range []string{"memory", "injected", "injected-lazy", "injected-fiberlike"} {
+		for _, mb := range []uint{0, 6} {
+			for _, hd := range []bool{false, true} {
+				sc = append(sc, ccfg{Storage: st, MaxBytes: mb, Headers: hd})
+			}
+		}
+	}
+	shapeSweep := sweepOf([]hop{get("get-a", "/a"), get("get-z", "/z"), get("get-m", "/m"), get("get-o", "/o"), get("get-s", "/s"), get("get-g", "/g")})
+	fs = append(fs, family{Name: "shapes", Cfgs: sc, Alphabet: shapeLetters, Depth: 4 + extra, MinReqs: 2, Sweep: shapeSweep})
+
+	// heap: every ordered choice of 3 distinct keys fills the heap, then every word over keys/invalidations/ticks
+	var hc []ccfg
+	for _, st := range []string{"memory", "injected", "injected-lazy", "injected-fiberlike"} {
+		hc = append(hc, ccfg{Storage: st, MaxBytes: 8, Life: "spread"})
+	}
+	var pre [][]hop
+	for i := range heapKeys {
+		for j := range heapKeys {
+			for k := range heapKeys {
+				if i != j && j != k && i != k {
+					pre = append(pre, []hop{heapKeys[i], heapKeys[j], heapKeys[k]})
+				}
+			}
+		}
+	}
+	fs = append(fs, family{Name: "heap", Cfgs: hc, Prefixes: pre, Alphabet: heapLetters, Depth: 3 + extra, MinReqs: 1, Sweep: sweepOf(heapKeys)})
+	fs = append(fs, family{Name: "base", Cfgs: allCfgs(), Alphabet: hops, Depth: depth, MinReqs: 2})
+	return fs
 }
 
 type mentry struct {
@@ -70,10 +224,11 @@ type step struct {
 }
 
 // runHistory executes one history on a fresh app inside the scheduler with the default schedule.
-func runHistory(c ccfg, ops []hop, l *core.Local) {
+func runHistory(fam string, c ccfg, ops []hop, l *core.Local) {
 	model := map[string]mentry{}
 	var trace []step
-	tag := fmt.Sprintf("storage=%s maxbytes=%d headers=%v gen=%v", c.Storage, c.MaxBytes, c.Headers, c.Gen)
+	tag := cfgTag(c)
+	methods := cachedMethods(c)
 	res := verifrt.Run(func(kind string, n int, costly bool, label string) int { return 0 }, verifrt.Options{MaxSteps: 20000}, func() {
 		setClock()
 		o := &origin{version: map[string]int{}, log: map[string]originResp{}}
@@ -81,6 +236,7 @@ func runHistory(c ccfg, ops []hop, l *core.Local) {
 		h := build(c, o, st)
 		var shared fasthttp.RequestCtx
 		verifrt.Quiesce()
+		sweepHitBytes := 0
 		for i, op := range ops {
 			if op.Tick > 0 {
 				advance(op.Tick)
@@ -94,31 +250,28 @@ func runHistory(c ccfg, ops []hop, l *core.Local) {
 			trace = append(trace, step{Op: op.Name, R: r, Hit: !ran})
 			l.Add("transitions", 1)
 			key := op.Path + "_" + op.Method
-			noStore := len(op.Hdr) > 0 && op.Hdr[1] == "no-store"
-			noCache := len(op.Hdr) > 0 && op.Hdr[1] == "no-cache"
-			inval := len(op.Hdr) > 0 && op.Hdr[0] == "X-Invalidate"
 			cs := func() any {
-				var names []string
-				for _, x := range ops[:i+1] {
-					names = append(names, x.Name)
-				}
-				return map[string]any{"config": c, "ops": names, "trace": trace, "model": model}
+				return map[string]any{"family": fam, "config": c, "ops": namesOf(ops[:i+1]), "trace": trace, "model": model}
 			}
 			kind := opKind(op)
+			q := "" // qualifier of the violation signature for letters outside the base alphabet
+			if op.Class != "" {
+				q = "spelling=" + op.Class + " "
+			}
 			if !ran {
 				l.Add("hits", 1)
 				m, ok := model[key]
 				switch {
-				case noStore:
-					l.Violate("served-to-no-store "+tag, "a no-store request was answered from the cache", cs(), r, "origin runs")
-				case noCache:
-					l.Violate("served-to-no-cache "+tag, "a no-cache request was answered from the cache", cs(), r, "origin runs")
-				case inval:
+				case op.NoStore:
+					l.Violate("served-to-no-store "+q+tag, "a no-store request was answered from the cache", cs(), r, "origin runs")
+				case op.NoCache:
+					l.Violate("served-to-no-cache "+q+tag, "a no-cache request was answered from the cache", cs(), r, "origin runs")
+				case op.Inval:
 					l.Violate("served-invalidated "+tag, "an invalidating request was answered from the cache", cs(), r, "origin runs")
-				case op.Method != "GET" && op.Method != "HEAD":
+				case !methods[op.Method]:
 					l.Violate("served-unconfigured-method "+tag, "a response to an unconfigured method was served from the cache", cs(), r, "origin runs")
 				case !ok:
-					l.Violate("served-never-stored op="+kind+" "+tag, "a response was served from the cache although nothing storable was produced for this key", cs(), r, "origin runs")
+					l.Violate("served-never-stored op="+kind+" "+tag, "a response was served from the cache although nothing storable was produced for this method and key", cs(), r, "origin runs")
 				case ts >= m.Exp:
 					l.Violate("served-after-expiry "+tag, "a cached response was served after its expiration", cs(), r, "origin runs")
 				default:
@@ -135,20 +288,29 @@ func runHistory(c ccfg, ops []hop, l *core.Local) {
 						case r.Status == want.Status:
 							field = "stored-header"
 						}
-						l.Violate("hit-differs-from-origin field="+field+" "+tag, "the cached response differs from what the origin last produced for this key", cs(), r, want)
+						l.Violate("hit-differs-from-origin field="+field+" "+tag, "the cached response differs from what the origin last produced for this method and key", cs(), r, want)
 					}
 				}
-				l.Outcome("hit " + kind)
+				if op.Unspec {
+					l.Add("unspecified_skipped", 1)
+					l.Outcome("hit-unspecified " + kind)
+				} else {
+					l.Outcome("hit " + kind)
+				}
+				if op.Sweep {
+					sweepHitBytes += len(r.Body)
+				}
 			} else {
 				// origin ran: update the model with what may have been stored
-				if !noStore && (op.Method == "GET" || op.Method == "HEAD") && cacheable[r.Status] {
+				fits := c.MaxBytes == 0 || uint(len(r.Body)) <= c.MaxBytes
+				if !op.NoStore && methods[op.Method] && cacheable[r.Status] && fits {
 					model[key] = mentry{XV: r.XV, Exp: ts + int64(expFor(c, op.Path))}
-				} else if !noStore && (op.Method == "GET" || op.Method == "HEAD") {
-					delete(model, key) // the previous entry (if any) was looked up and must not resurface... it may: not judged
 				}
-				if inval {
+				// A refresh that is not storable leaves the model's entry alone: an unexpired, un-invalidated older response
+				// may still be served (after a no-cache request whose answer was a 500, say); an expired one is judged by Exp.
+				if op.Inval {
 					// an invalidated entry must be gone even if the refresh was not storable
-					if _, ok := model[key]; ok && !cacheable[r.Status] {
+					if _, ok := model[key]; ok && !(cacheable[r.Status] && fits) {
 						delete(model, key)
 					}
 				}
@@ -159,21 +321,25 @@ func runHistory(c ccfg, ops []hop, l *core.Local) {
 					l.Violate("bytes-over-maxbytes "+tag, "the bodies held in the storage exceed MaxBytes", cs(), b, c.MaxBytes)
 				}
 			}
+			// Every hit of the final sweep is an entry that was held when the sweep began (a sweep request that
+			// misses can only add its own key, which is not counted): the sizes of the hits are a lower bound of the
+			// bytes held, whatever the storage.
+			if op.Sweep && c.MaxBytes > 0 && sweepHitBytes > int(c.MaxBytes) {
+				l.Violate("bytes-over-maxbytes seen-by=probe-sweep "+tag, "the bodies of the entries served from the cache by a sweep over all keys sum to more than MaxBytes", cs(), sweepHitBytes, c.MaxBytes)
+				sweepHitBytes = 0
+			}
 		}
 	})
 	if len(res.Panics) > 0 {
-		var names []string
-		for _, x := range ops {
-			names = append(names, x.Name)
-		}
-		l.Violate("panic "+firstLine(res.Panics[0])+" "+tag, "the middleware panicked in a sequential history", map[string]any{"config": c, "ops": names, "trace": trace}, res.Panics, nil)
+		l.Violate("panic "+firstLine(res.Panics[0])+" "+tag, "the middleware panicked in a sequential history", map[string]any{"family": fam, "config": c, "ops": namesOf(ops), "trace": trace}, res.Panics, nil)
 		l.Outcome("panic")
 	}
 	if res.Deadlock || res.Horizon || res.Stuck != "" {
-		l.Violate("history-stuck "+tag, "sequential history did not complete", fmt.Sprint(ops), res.Blocked, nil)
+		l.Violate("history-stuck "+tag, "sequential history did not complete", fmt.Sprint(namesOf(ops)), res.Blocked, nil)
 	}
 	l.Add("histories", 1)
-	l.Sample(fmt.Sprint(tag, " ", strings.Join(namesOf(ops), ",")))
+	l.Add("histories:"+fam, 1)
+	l.Sample(fmt.Sprint(fam, ": ", tag, " ", strings.Join(namesOf(ops), ",")))
 }
 
 func namesOf(ops []hop) []string {
@@ -186,55 +352,77 @@ func namesOf(ops []hop) []string {
 
 func opKind(o hop) string { return o.Name }
 
-func enumerateHistories(r *core.Run, depth int) {
+func enumerateHistories(r *core.Run, quick bool) {
 	l := core.NewLocal()
-	cfgs := allCfgs()
-	n := len(hops)
-	total := 1
-	for i := 0; i < depth; i++ {
-		total *= n
-	}
-	ops := make([]hop, depth)
 	idx := 0
-	for ci, c := range cfgs {
-		for h := 0; h < total; h++ {
-			idx++
-			if !r.Shard(idx) {
-				continue
-			}
-			x := h
-			reqs := 0
-			for i := 0; i < depth; i++ {
-				ops[i] = hops[x%n]
-				x /= n
-				if ops[i].Tick == 0 {
-					reqs++
+	for _, f := range families(quick) {
+		if only := os.Getenv("C14_ONLY_FAMILY"); only != "" && !strings.Contains(","+only+",", ","+f.Name+",") {
+			continue
+		}
+		n := len(f.Alphabet)
+		total := 1
+		for i := 0; i < f.Depth; i++ {
+			total *= n
+		}
+		pres := f.Prefixes
+		if pres == nil {
+			pres = [][]hop{nil}
+		}
+		word := make([]hop, f.Depth)
+	cfgs:
+		for ci, c := range f.Cfgs {
+			for _, pre := range pres {
+				for h := 0; h < total; h++ {
+					idx++
+					if !r.Shard(idx) {
+						continue
+					}
+					x := h
+					reqs := 0
+					for i := 0; i < f.Depth; i++ {
+						word[i] = f.Alphabet[x%n]
+						x /= n
+						if word[i].Tick == 0 {
+							reqs++
+						}
+					}
+					if reqs < f.MinReqs || (len(f.Sweep) == 0 && word[f.Depth-1].Tick > 0) {
+						continue // prefixes of other histories
+					}
+					ops := make([]hop, 0, len(pre)+f.Depth+len(f.Sweep))
+					ops = append(append(append(ops, pre...), word...), f.Sweep...)
+					runHistory(f.Name, c, ops, l)
 				}
 			}
-			if reqs < 2 || ops[depth-1].Tick > 0 {
-				continue // prefixes of other histories
+			if r.Expired() {
+				r.Cap(fmt.Sprintf("wall-clock budget reached in harness A, family %s at config %d/%d", f.Name, ci, len(f.Cfgs)))
+				break cfgs
 			}
-			runHistory(c, ops, l)
-		}
-		if r.Expired() {
-			r.Cap(fmt.Sprintf("wall-clock budget reached in harness A at config %d/%d", ci, len(cfgs)))
-			break
 		}
 	}
 	r.Merge(l.P)
 }
 
 func debugHistory(spec string) {
-	// C14_DEBUG="storage,maxbytes,headers,gen:op,op,op"
+	// C14_DEBUG="storage,maxbytes,headers,gen[,methods(+ separated)[,lifetimes]]:op,op,op"  (letters of any family; sweep-<letter> for a sweep request)
 	parts := strings.SplitN(spec, ":", 2)
 	f := strings.Split(parts[0], ",")
 	c := ccfg{Storage: f[0], Headers: f[2] == "true", Gen: f[3] == "true"}
 	fmt.Sscan(f[1], &c.MaxBytes)
+	if len(f) > 4 {
+		c.Methods = strings.ReplaceAll(f[4], "+", ",")
+	}
+	if len(f) > 5 {
+		c.Life = f[5]
+	}
+	all := append(append(append(append(append([]hop{}, hops...), dirLetters...), methLetters...), shapeLetters...), heapLetters...)
+	all = append(all, sweepOf(append(append([]hop{}, heapKeys...), get("get-z", "/z"), get("get-m", "/m"), get("get-o", "/o"), get("get-s", "/s"), get("get-g", "/g")))...)
 	var ops []hop
 	for _, name := range strings.Split(parts[1], ",") {
-		for _, o := range hops {
+		for _, o := range all {
 			if o.Name == name {
 				ops = append(ops, o)
+				break
 			}
 		}
 	}
@@ -244,12 +432,12 @@ func debugHistory(spec string) {
 		_ = pprof.StartCPUProfile(f)
 		t0 := time.Now()
 		for i := 0; i < 3000; i++ {
-			runHistory(c, ops, l)
+			runHistory("debug", c, ops, l)
 		}
 		pprof.StopCPUProfile()
 		fmt.Println("per history:", time.Since(t0)/3000)
 	}
-	runHistory(c, ops, l)
+	runHistory("debug", c, ops, l)
 	for k, v := range l.P.Violations {
 		fmt.Println(k, "\n  ", core.Key(v.Case), "\n   observed", core.Key(v.Observed), "expected", core.Key(v.Expected))
 	}
